@@ -226,7 +226,9 @@ func rtPhases(which string, unpriv bool) []*fw.Phase {
 	siblings := []string{"none", "dir", "file"}
 	defaults := &fw.Phase{
 		Name: "default-rule-subtrees" + suffix, Chroot: true, Unpriv: unpriv, Exhaustive: true,
-		N: func(string) int { return len(prefixes) * len(dmodes) * len(contents) * len(siblings) * len(allPackOpts) },
+		N: func(string) int {
+			return len(prefixes) * len(dmodes) * len(contents) * len(siblings) * len(allPackOpts)
+		},
 		Run: func(env *fw.Env, idx int) fw.Result {
 			k := idx
 			pick := func(n int) int { v := k % n; k /= n; return v }
